@@ -183,6 +183,22 @@ def check(ctx):
                           'holdings -= amount on release, += amount on merge, source emptied')
     obs.append(o)
     N = Normalizer(P, RM)
+    # every entry is visited: a loop that updates the pool table per entry is left only by exhaustion (a `break` or `return` inside it -- say
+    # at the first zero amount -- leaves the later entries of the same request unreleased / unreserved)
+    for op_ in ('reserve_resources', '_release_resources'):
+        g_ = ctx.graph(RM, op_)
+        for h_ in [n_ for n_ in g_.nodes.values() if n_.kind == 'for']:
+            body_ = g_.reach_edges([m_ for l_, m_ in g_.succ[h_.id] if l_ == 'T'], cut_edges={(h_.id, 'T'), (h_.id, 'F')})
+            writes_ = [n_ for n_ in pool_stores(g_) if n_.id in body_]
+            if not writes_:
+                continue
+            o.count()
+            # normal exits only: an explicit raise out of the loop is the business of C09.1 (raise after mutation)
+            if g_.exit in body_:
+                o.fail(P, f'ResourceManager.{op_}', None, f'the loop of {op_} that updates the pools can be left from inside its body (break / return): the remaining entries of '
+                       'the request are not processed, so usage and holdings disagree afterwards', node=h_)
+            else:
+                o.witness((op_, 'all-entries'))
     want = {'reserve_resources': ('in_use + amount', 'cap'), '_release_resources': ('in_use - amount', 'cap'), 'add_resources': ('in_use', 'cap + amount')}
     for op, (wu, wc) in want.items():
         fn = P.method(RM, op)[1]
